@@ -120,8 +120,6 @@ GUARDS = [
      "isinstance(c, (etree._Comment, etree._ProcessingInstruction))", 'continue'),
     ('g_xml_entity', 'spyne.protocol.xml', 'XmlDocument.complex_from_element',
      "isinstance(c, etree._Entity)", 'raise'),
-    ('g_xml_submember_attr', 'spyne.protocol.xml', 'XmlDocument.complex_from_element',
-     "not issubclass(submember, XmlAttribute)", 'continue'),
     ('g_xml_member_attr', 'spyne.protocol.xml', 'XmlDocument.complex_from_element',
      "not issubclass(member, XmlAttribute)", 'continue'),
     ('g_xml_enum_member', 'spyne.protocol.xml', 'XmlDocument.enum_from_element',
